@@ -543,3 +543,25 @@ def normalized_func(func, flatten=False):
     nz = Normalizer(func.module, func, flatten=flatten)
     node = nz.run()
     return node, nz.inlined
+
+
+def helper_closure(func, depth=3):
+    """[normalised node of func] + the definitions of the NEW helpers (not in the snapshot) it calls, transitively.
+    For rules that look for a construct 'somewhere in the implementation of func' when a helper could not be inlined."""
+    from .core import calls_in
+    nz = Normalizer(func.module, func)
+    root = nz.run()
+    out = [root]
+    seen = {id(func.node)}
+    frontier = [root]
+    for _ in range(depth):
+        nxt = []
+        for node in frontier:
+            for c in calls_in(node):
+                h = nz.helper_for(c, node)
+                if h is not None and id(h[0]) not in seen:
+                    seen.add(id(h[0]))
+                    out.append(h[0])
+                    nxt.append(h[0])
+        frontier = nxt
+    return out
